@@ -171,8 +171,10 @@ def run(report, tier, seed):
         r = rng.random()
         if r < 0.2:
             return None
-        if r < 0.35 and allow_tuple and nd >= 2:
-            return tuple(sorted(rng.sample(range(nd), 2)))
+        if r < 0.4 and allow_tuple and nd >= 2:
+            # axis tuples in any order, with negative entries (each axis named once)
+            axes = rng.sample(range(nd), rng.randint(2, nd))
+            return tuple(a - nd if rng.random() < 0.5 else a for a in axes)
         return rng.randrange(-nd, nd)
 
     for _ in range(reps):
